@@ -36,6 +36,7 @@ func c07(c *Ctx) {
 	c07R9(c, "R9")
 	sCommitCoversConfig(c, "R10/S-COMMITCFG")
 	c07R11(c, "R11")
+	coreCommitBundle(c, "R12", "C05.R1", "S-QUORUM")
 	sState(c, "R7/S-STATE")
 }
 
